@@ -299,16 +299,29 @@ def rule_split_mass_agreement(ctx, rule='R03.7'):
             continue
         # central mass of the Kepler step in the same case: G*eta with eta as last assigned in the case
         last = {}
+        last_node = {}
         masses = []
         for st in kc.get(const, []):
             for e in walk(st):
                 if cfront.is_assign(e) and e['opcode'] == '=' and strip(e['inner'][0]).get('kind') == 'DeclRefExpr':
                     last[render(e['inner'][0])] = render(e['inner'][1])
+                    last_node[render(e['inner'][0])] = e['inner'][1]
                 if e.get('kind') == 'CallExpr' and callee_name(e) == SOLVER:
-                    m = mass_factor(call_args(e)[2], Lk, Gn)
+                    arg = call_args(e)[2]
+                    m = mass_factor(arg, Lk, Gn)
                     if m is not None:
                         txt = render(m)
                         masses.append((canon(last.get(txt, txt), Lk), line_of(e)))
+                    else:
+                        # the gravitational parameter is handed over ready-made: G*M with M read off its last assignment
+                        txt = render(arg)
+                        node = last_node.get(txt)
+                        if node is None:
+                            for d in walk(cfront.body(kep)):
+                                if d.get('kind') == 'VarDecl' and d.get('name') == txt and 'init' in d:
+                                    node = [c for c in d.get('inner', []) if c.get('kind') not in ('FullComment',)][-1]
+                        m2 = mass_factor(node, Lk, Gn) if node is not None else None
+                        masses.append((canon(render(m2), Lk) if m2 is not None else '(%s)/G' % canon(render(node) if node is not None else txt, Lk), line_of(e)))
         anchor(masses, 'Kepler step of %s calls the solver with G times a mass' % const)
         for cm, cl in comp:
             n += 1
@@ -362,8 +375,6 @@ def rule_bracket_swap(ctx):
 
 
 def run(ctx):
-    rule_bracket_swap(ctx)
-    rule_split_mass_agreement(ctx)
     rule_bisection_nan(ctx)
     tables.rule_tables(ctx, 'R03.1')
     callers = rule_scope(ctx)
@@ -372,6 +383,8 @@ def run(ctx):
     rule_loops(ctx)
     from . import c02
     c02.rule_pair_domains(ctx)     # R02.8: the term solved by the Kepler step (gravity_ignore_terms) is left out of the kick exactly once
+    rule_bracket_swap(ctx)
+    rule_split_mass_agreement(ctx)
     from . import c09
     c09.rule_cache_invalidation(ctx)   # R09.10: the Jacobi/heliocentric copy the Kepler step advances is refreshed whenever the particles changed
     c09.rule_exact_finish(ctx)         # R09.11
